@@ -112,11 +112,22 @@ def tlc(specdir, module, cfg, workers=None, timeout=900, simulate=None, depth=No
         cmd += (extra or [])
         cmd.append(module)
         t0 = time.time()
+        proc = subprocess.Popen(cmd, cwd=sd, env=env, stdout=subprocess.PIPE, stderr=subprocess.STDOUT, text=True, start_new_session=True)
         try:
-            r = subprocess.run(cmd, cwd=sd, env=env, capture_output=True, text=True, timeout=timeout)
+            so, _ = proc.communicate(timeout=timeout)
         except subprocess.TimeoutExpired:
-            subprocess.run(['pkill', '-f', 'tlc2.TL[C]'])
+            import signal
+            try:
+                os.killpg(proc.pid, signal.SIGKILL)  # only this TLC (other checks may be running TLC too)
+            except ProcessLookupError:
+                pass
+            proc.communicate()
             raise Infra('TLC timeout after %ds on %s/%s' % (timeout, module, cfg))
+
+        class _R:
+            pass
+        r = _R()
+        r.returncode, r.stdout, r.stderr = proc.returncode, so, ''
         out = r.stdout + r.stderr
         res = {'out': out, 'rc': r.returncode, 'wall': time.time() - t0, 'scratch': sd}
         m = None
